@@ -386,10 +386,17 @@ impl Lowerer {
                     })
                     .try_collect()?;
 
-                let names = columns
+                let names: Vec<String> = columns
                     .iter()
-                    .map(|c| c.as_single().unwrap().clone().unwrap())
-                    .collect_vec();
+                    .map(|c| {
+                        c.as_single().and_then(|name| name.clone()).ok_or_else(|| {
+                            Error::new_simple(
+                                "fields of a relation literal must be named (`[{a = 1, b = 2}]`)",
+                            )
+                            .with_span(expr.span)
+                        })
+                    })
+                    .try_collect()?;
                 let lit = RelationLiteral {
                     columns: names.clone(),
                     rows: elements
